@@ -93,6 +93,13 @@ Theorem c12_generated_conforms :
   forallb (fun f => request_side_conforms (gen_env f) (spec_env f)) all_feats = true.
 Proof. exact generated_request_side. Qed.
 
+(* non-vacuity: the bytes 0xA2 01 0A 03 00 (a LargeBlobs request) are accepted and the value is within limits *)
+Example c12_ex_within :
+  match decode (gen_env []) (TNamed "ctap2::large_blobs::Request") [0xA2; 0x01; 0x0A; 0x03; 0x00] with
+  | Ok (v, _) => within (gen_env []) type_fuel (TNamed "ctap2::large_blobs::Request") v = true
+  | _ => False end.
+Proof. vm_compute. reflexivity. Qed.
+
 Example c12_ex : blen [1; 2; 3] < 4294967296 /\ (64 <? blen [1; 2; 3]) = false.
 Proof. vm_compute. split; reflexivity. Qed.
 
